@@ -762,9 +762,7 @@ class Ref:
             if o.get("byte_size") is not None:
                 if end - pos > o["byte_size"]:
                     raise Skip("structure larger than BYTE-SIZE")
-                end = pos + o["byte_size"]
-                if end > len(cx.pdu):
-                    raise Short("structure BYTE-SIZE")
+                end = pos + o["byte_size"]   # missing *padding* is not a missing parameter
             return vals, end
         if t == "SFIELD":
             st = self.dobj(o["struct"])
@@ -773,8 +771,6 @@ class Ref:
                 v, e = self.dec_dobj(cx, st, pos, 0, False)
                 res.append(v)
                 pos += o["item_size"]
-            if pos > len(cx.pdu):
-                raise Short("static field")
             return res, pos
         if t == "DLFIELD":
             cd = self.dobj(o["cnt_dop"])
